@@ -446,6 +446,9 @@ func runVarFam(vec map[string]interface{}) map[string]interface{} {
 		thr := 0.0
 		if agg {
 			ts := strconv.FormatFloat(float64(gIntD(r, "thr", 0))/1000.0, 'f', 3, 64)
+			if t9 := gIntD(r, "thr9", -1); t9 >= 0 {
+				ts = nineDecimals(t9)
+			}
 			thr, _ = strconv.ParseFloat(ts, 64)
 		}
 		app := gBool(r, "append")
@@ -509,7 +512,11 @@ func runVarFam(vec map[string]interface{}) map[string]interface{} {
 			args = flagInt(flagInt(args, "--start", s, -1), "--end", e, -1)
 			args = flagBool(args, "--append-snps", app)
 			if agg {
-				args = append(args, "--aggregate", "--threshold", thousandths(gIntD(r, "thr", 0)))
+				if t9 := gIntD(r, "thr9", -1); t9 >= 0 {
+					args = append(args, "--aggregate", "--threshold", nineDecimals(t9))
+				} else {
+					args = append(args, "--aggregate", "--threshold", thousandths(gIntD(r, "thr", 0)))
+				}
 			}
 			for k, v := range cliRun(cliCase{files: files, args: args, inproc: out.String(), outflag: "-o"}) {
 				res[k] = v
